@@ -74,8 +74,8 @@ impl<E: El, I: Item<E>> Chain<E, I> {
         let mut cur: Built<E, I> = Built::Pair(values, tap(0, stream));
         for (k, kind) in cfg.stages.iter().copied().enumerate() {
             let (built, ctl) = match cur {
-                Built::Pair(v, s) => build_on_pair(v, s, kind, k, cfg.obs_init, &log),
-                Built::Dyn(ad) => {
+                Built::Pair(v, s) => build_on_pair(v, s, kind, k, cfg.obs_init, &log, cfg.via_adapter),
+                Built::Dyn(ad, _) => {
                     if cfg.direct {
                         build_on_adapter(ad, kind, k, cfg.obs_init, &log)
                     } else {
@@ -83,7 +83,7 @@ impl<E: El, I: Item<E>> Chain<E, I> {
                         reps.push(v.iter().cloned().collect());
                         segs.push(SegR { stages: std::mem::take(&mut cur_seg), last_item: ItemRec::Init, outputs: vec![] });
                         let g = segs.len();
-                        build_on_pair(v, tap(g, s), kind, k, cfg.obs_init, &log)
+                        build_on_pair(v, tap(g, s), kind, k, cfg.obs_init, &log, cfg.via_adapter)
                     }
                 }
             };
@@ -112,7 +112,7 @@ impl<E: El, I: Item<E>> Chain<E, I> {
         }
         let (v, top) = match cur {
             Built::Pair(v, s) => (v, s),
-            Built::Dyn(ad) => (Vector::new(), ad.into_stream()),
+            Built::Dyn(ad, init) => (init.unwrap_or_default(), ad.into_stream()),
         };
         reps.push(v.iter().cloned().collect());
         segs.push(SegR { stages: cur_seg, last_item: ItemRec::Init, outputs: vec![] });
